@@ -69,6 +69,24 @@ func lspRange(r lsp.Range) string {
 
 // lspRequestOf builds the JSON-RPC request of one history entry (the same for the in-process and the
 // wire runs). Requests that expect an answer get an id, notifications none.
+// versionAt: the version a client gives the document of entry i - 1 when it is opened, one more for
+// every change since (each document has its own counter)
+func versionAt(hist []lspReq, i int) int {
+	v := 0
+	for j := 0; j <= i; j++ {
+		if hist[j].URI != hist[i].URI {
+			continue
+		}
+		switch hist[j].Op {
+		case "open":
+			v = 1
+		case "change":
+			v++
+		}
+	}
+	return v
+}
+
 func lspRequestOf(texts []string, hist []lspReq, i int) jsonrpc2.Request {
 	rq := hist[i]
 	req := jsonrpc2.Request{}
@@ -85,7 +103,7 @@ func lspRequestOf(texts []string, hist []lspReq, i int) jsonrpc2.Request {
 			changes = append(changes, map[string]any{"text": texts[(rq.Tid+1+k)%len(texts)]})
 		}
 		changes = append(changes, map[string]any{"text": texts[rq.Tid]})
-		req.Params = rawParams(map[string]any{"textDocument": map[string]any{"uri": rq.URI, "version": 2}, "contentChanges": changes})
+		req.Params = rawParams(map[string]any{"textDocument": map[string]any{"uri": rq.URI, "version": versionAt(hist, i)}, "contentChanges": changes})
 	case "hover":
 		req.Method = "textDocument/hover"
 		req.ID = jsonrpc2.ID{Num: uint64(i + 1)}
@@ -263,7 +281,7 @@ func runLspHistory(texts []string, hist []lspReq) (obs []string, short []string,
 		}()
 	}
 	latest := map[string]int{}
-	for _, rq := range hist {
+	for hi, rq := range hist {
 		var ret any
 		var out string
 		pan := false
@@ -281,7 +299,7 @@ func runLspHistory(texts []string, hist []lspReq) (obs []string, short []string,
 				changes = append(changes, map[string]any{"text": texts[(rq.Tid+1+k)%len(texts)]})
 			}
 			changes = append(changes, map[string]any{"text": texts[rq.Tid]})
-			req.Params = rawParams(map[string]any{"textDocument": map[string]any{"uri": rq.URI, "version": 2}, "contentChanges": changes})
+			req.Params = rawParams(map[string]any{"textDocument": map[string]any{"uri": rq.URI, "version": versionAt(hist, hi)}, "contentChanges": changes})
 			latest[rq.URI] = rq.Tid
 		case "hover":
 			req.Method = "textDocument/hover"
